@@ -3,6 +3,7 @@
 from __future__ import annotations
 
 import sys
+from decimal import Decimal
 from typing import TYPE_CHECKING
 from typing import Any
 from typing import Generic
@@ -212,6 +213,15 @@ class FloatLiteral(Literal[float]):
 
     def __init__(self, token: Token, value: float):
         super().__init__(token, value)
+
+    def __str__(self) -> str:
+        s = repr(self.value)
+        if "e" in s or "E" in s:
+            # Liquid float literals have no exponent notation.
+            s = format(Decimal(s), "f")
+            if "." not in s:
+                s += ".0"
+        return s
 
     def __eq__(self, other: object) -> bool:
         return isinstance(other, FloatLiteral) and self.value == other.value
